@@ -16,7 +16,7 @@ def h_cancel(shapes=("indep3", "chain3"), bss=(1,), maxns=(1, None), max_steps=4
         try:
             _run(ex, w)
         except Hang as e:
-            ex.check(False, "C14: a JADE process did not terminate", what=str(e)[:200])
+            ex.check(False, "C14: a JADE process did not terminate", what=str(e)[:200], fatal=True)
         finally:
             w.close()
 
